@@ -177,3 +177,8 @@ ax("wf-rw-td-values-opt", L.FA([_t, _i], z3.Implies(z3.And(wf_rw(_t), TY.kind(_t
 
 ax("wf-rw-args-not-none", L.FA([_t, _i], z3.Implies(z3.And(wf_rw(_t), 0 <= _i, _i < L.len_(TY.args(_t))), L.nth(TY.args(_t), _i) != L.NONE),
                               [(wf_rw(_t), L.nth(TY.args(_t), _i))]))
+
+ax("Union-of-types-not-none", L.FA(_sq, z3.Implies(z3.And(L.len_(_sq) >= 1, L.FA(_i, z3.Implies(z3.And(0 <= _i, _i < L.len_(_sq)), L.nth(_sq, _i) != L.NONE))),
+                                                   TY.Union_(_sq) != L.NONE), [TY.Union_(_sq)]))
+ax("wf-rw-not-none-kinds", L.FA(_t, z3.Implies(z3.Or(*[TY.kind(_t) == TY.K[k_] for k_ in TY.KINDS if k_ != "Other"]), _t != L.NONE), [TY.kind(_t)]))
+ax("wf-rw-not-none", z3.Not(wf_rw(L.NONE)))
